@@ -411,6 +411,30 @@ def run_scripted(opname, version, real_data, part):
         part.count('exchanges')
         judge(opname, version, out, resp, part,
               {'op': opname, 'version': list(version), 'peer': 'scripted', 'response': label}, label)
+    # responses that cannot be fully decoded: a primitive item declaring more value bytes than its
+    # enclosing structure holds (every primitive node x {+8, +16, 2^31}); all structure lengths and
+    # the framing stay consistent, so only the decoder can notice
+    for node in ttlv.index(real_data):
+        if node['type'] == ttlv.STRUCTURE:
+            continue
+        for newlen in (node['length'] + 8, node['length'] + 16, 2 ** 31):
+            s_ = node['start']
+            m = real_data[:s_ + 4] + struct.pack('!I', newlen) + real_data[s_ + 8:]
+            why = ttlv.short_primitive(real_data, m)
+            if not why or m in seen:
+                continue
+            seen.add(m)
+            tr = Transport(lambda frame, m=m: m)
+            out = call(opname, version, tr, ids)
+            part.count('exchanges')
+            part.count('short_primitive_responses')
+            part.counters.setdefault('_out', set()).add((opname, 'short-primitive', out.kind))
+            if out.kind != 'exception':
+                part.violation("undecodable-response-accepted|%s|%06x" % (opname, node['tag']),
+                               "%s under KMIP %d.%d: in the response %s, yet the client reported %r" % (
+                                   opname, version[0], version[1], why, out),
+                               {'op': opname, 'version': list(version), 'peer': 'scripted',
+                                'short_primitive': [node['start'], newlen]})
     # chunkings and truncations of the real response
     n = len(real_data)
     ref = None
@@ -458,7 +482,7 @@ def run(tier, seed):
     tasks = []
     for n in names:
         tasks.append((n, W.VERSIONS, False))                       # (a) all versions
-        tasks.append((n, vq if tier == 'quick' else W.VERSIONS, True))   # (b) scripted
+        tasks.append((n, W.VERSIONS, True))   # (b) scripted: every supported version
     outs = set()
     for part in pmap(_worker, tasks):
         outs.update(repr(o) for o in part.pop('out', []))
